@@ -152,7 +152,12 @@ def build_all(prop, tier):
         except OSError:
             pass
     rc = sh("timeout 2400 make -j16 theories/Props/%s.vo" % prop, "coq-props.log", cwd=COQ)
-    out = open(os.path.join(LOGS, "coq-props.log")).read()
+    if rc == 0:
+        # compile the statements file once more on its own: its output alone is audited
+        rc = sh("timeout 1200 coqc -Q theories KV theories/Props/%s.v" % prop, "coq-props-only.log", cwd=COQ)
+        out = open(os.path.join(LOGS, "coq-props-only.log")).read()
+    else:
+        out = open(os.path.join(LOGS, "coq-props.log")).read()
     src = strip_comments(open(pv).read())
     theorems = re.findall(r"^\s*(?:Theorem|Lemma)\s+(\w+)", src, re.M)
     printed = re.findall(r"Print Assumptions\s+(\w+)\s*\.", src)
@@ -360,7 +365,8 @@ def main():
             path = write_replay("input", dict({k: v for k, v in c.items() if not k.startswith("_")},
                                               failures=new, disagreements=r["disagree"][:3]))
             violations.append(("property oracle failed: %s" % new[0][:200], path, False))
-        if r["disagree"]:
+        # a disagreement on a case whose property failure is a listed known finding is explained by that finding
+        if r["disagree"] and not (r["fails"] and not new):
             disagreeing.append((c, r))
     crashed = [r for r in results if r.get("error")]
 
